@@ -80,6 +80,8 @@ def gen(args):
         W = rng.permutation(N) + 1
         if rng.random() < 0.3:
             W = np.sort(rng.choice(np.arange(-50, 50), size=N, replace=False))[np.argsort(rng.permutation(N))]
+        if rng.random() < 0.2:
+            W = rng.integers(1, max(3, N // 2), size=N)          # equal weights: a point never moves to a point of EQUAL weight
         mode = "cut" if rng.random() < 0.55 else "gabriel"
         cell = []
         if rng.random() < 0.35:
